@@ -24,7 +24,8 @@ namespace avel {
 
         explicit Denominator(Denom16u denom):
             m(denom.m),
-            sh2(denom.sh2),
+            sh1(vec8x16u{std::uint16_t(denom.d != 1)}),
+            sh2(denom.d != 1 ? denom.sh2 : std::uint16_t(0)),
             d(denom.d) {}
 
         explicit Denominator(vec8x16u d):
